@@ -17,6 +17,9 @@ CHECKS = {
     'C11': dict(cat='other', tech='per-backend MIR dump -> symbolic execution -> SMT equality with one reference polynomial',
                 text='Solver-decided, bounded: the predicate of every buildable backend (ibig, dashu, malachite, num_bigint; quick: ibig + one seeded other) equals the same reference determinant sign on [0,2^52)^15, hence pairwise agreement. rug is outside (not buildable).',
                 note=TRUST_M + '; each big-integer crate implements Z exactly', ref='DESIGN.md 4 C11'),
+    'C19': dict(cat='other', tech='symbolic execution of each helper\'s MIR -> polynomial identities over R decided by z3 (cvc5 / z3-4.8 cross-check), native replay of counterexamples',
+                text='Solver-decided for all real arguments under the documented non-degeneracy: the defining equations of intersect_planes, Plane::project_onto(_intersection), signed_volume_tet, signed_area_tri, Sphere::from_{two,three,four}_points, Sphere::extend and the float in-sphere polynomial hold as identities of the arithmetic the compiler sees (f64 read as exact reals; rounding and conditioning outside the claim).',
+                note=TRUST_M, ref='DESIGN.md 4 C19'),
 }
 
 NA = {
